@@ -463,6 +463,10 @@ fn scientific_to_plain(s: String) -> String {
       let zeroes = (0..(exponent_digits - after_decimal.len())).map(|_| "0").collect::<String>();
       format!("{}{}{}", before_decimal, after_decimal, zeroes)
     } else {
+      // a zero coefficient stays a single zero whatever the exponent (0E+3 is what rescaling zero gives)
+      if before_exponent.trim_start_matches('-') == "0" {
+        return before_exponent.to_string();
+      }
       let zeroes = (0..exponent_digits).map(|_| "0").collect::<String>();
       format!("{}{}", before_exponent, zeroes)
     }
